@@ -203,6 +203,7 @@ class Chan:
         self.rx_waiters = set()
         self.tx_waiters = set()
         self.label = label
+        self.reserved = 0        # capacity handed out as permits (reserve / reserve_owned) and not yet used
 
 class MpscSender:
     def __init__(self, ch):
@@ -242,7 +243,7 @@ class SendFut:
             v = self.v
             self.v = MOVED
             return ready(err(Adt('tokio::sync::mpsc::error::SendError', None, {0: v})))
-        if len(ch.q) < ch.cap:
+        if len(ch.q) + ch.reserved < ch.cap:
             ch.q.append(self.v)
             self.v = MOVED
             m.event('mpsc_send', s.cur, ch.label)
@@ -307,11 +308,65 @@ def _mpsc_try_send(m, args, ci):
     ch = tx.ch
     if not ch.rx_alive:
         return err(Adt('tokio::sync::mpsc::error::TrySendError', 'Closed', {0: args[1]}))
-    if len(ch.q) < ch.cap:
+    if len(ch.q) + ch.reserved < ch.cap:
         ch.q.append(args[1])
         sched(m).wake(ch.rx_waiters)
         return ok(unit())
     return err(Adt('tokio::sync::mpsc::error::TrySendError', 'Full', {0: args[1]}))
+
+class Permit:
+    """A reserved slot of a bounded channel (Permit / OwnedPermit): using it cannot block; dropping it frees the slot."""
+    def __init__(self, ch, owned):
+        self.ch = ch
+        self.owned = owned
+        self.live = True
+    def on_drop(self, m):
+        if self.live:
+            self.live = False
+            self.ch.reserved -= 1
+            sched(m).wake(self.ch.tx_waiters)
+
+class ReserveFut:
+    def __init__(self, ch, owned):
+        self.ch = ch
+        self.owned = owned
+    def poll(self, m, ref, cx):
+        ch = self.ch
+        s = sched(m)
+        if not ch.rx_alive:
+            return ready(err(Adt('tokio::sync::mpsc::error::SendError', None, {0: unit()})))
+        if len(ch.q) + ch.reserved < ch.cap:
+            ch.reserved += 1
+            m.event('mpsc_reserve', s.cur, ch.label)
+            return ready(ok(Permit(ch, self.owned)))
+        m.event('mpsc_send_blocked', s.cur, ch.label, tuple(mutex_held_by(m, s.cur)))
+        s.register(ch.tx_waiters)
+        return pending()
+
+@I.rx(r'^(tokio::sync::)?mpsc::(bounded::)?Sender::(reserve|reserve_owned)$')
+def _mpsc_reserve(m, args, ci):
+    tx = deref_val(args[0]) if isinstance(args[0], Ref) else args[0]
+    owned = ci.name.endswith('reserve_owned')
+    if owned and isinstance(tx, MpscSender) and tx.live:
+        # the sender moves into the permit: it stays counted as a sender until the permit is gone
+        pass
+    return ReserveFut(tx.ch, owned)
+
+@I.rx(r'(^|::)(Owned)?Permit::send$')
+def _mpsc_permit_send(m, args, ci):
+    p = deref_val(args[0]) if isinstance(args[0], Ref) else args[0]
+    ch = p.ch
+    if p.live:
+        p.live = False
+        ch.reserved -= 1
+    ch.q.append(args[1])
+    s = sched(m)
+    m.event('mpsc_send', s.cur, ch.label)
+    s.wake(ch.rx_waiters)
+    if p.owned:
+        ch.senders += 1
+        return MpscSender(ch)
+    return unit()
 
 @I.rx(r'^(tokio::sync::)?mpsc::(bounded::)?Receiver::recv$')
 def _mpsc_recv(m, args, ci):
